@@ -10,7 +10,7 @@ RULE = ('byte strings near the valid language: well-formed messages and their mu
         'and an independent frame recomputation (tiling, value = content of own bytes); non-trivial = distinct input accepted by '
         'the implementation or by the reference decoder')
 CODEC_ALIASES = True     # one implementation run in three is given an alias spelling of the codec name (worker.for_impl)
-CALL_VARIANTS = True     # bytearray / memoryview messages and earlier failing calls around the harness's loads / dumps calls (worker.install_call_variants)
+CALL_VARIANTS = True     # bytearray messages, positional arguments and earlier failing calls around the harness's loads / dumps calls (worker.install_call_variants)
 EXHAUSTIVE = {}
 ASSUMPTIONS = ['numerals that are not plain decimal digits are a don\'t-care for acceptance (they must still be framed exactly if accepted)',
                'leniency inside a PDS carrier (truncated last sub-element) is outside the statement, which is about elements']
